@@ -3,17 +3,27 @@ package main
 import (
 	"bytes"
 	"fmt"
+	"math"
 	"math/big"
 	"math/rand"
 	"runtime/debug"
 	"sort"
 	"strings"
+	"sync"
 	"sync/atomic"
 	"time"
 
 	"github.com/ethereum/go-ethereum/p2p/enode"
 	"verifharness/lib"
 	"verifharness/pnode"
+)
+
+// distributional monitor of the random part of the selection (see roundWith)
+var (
+	spreadMu       sync.Mutex
+	spreadRounds   int
+	spreadPicked   int
+	spreadLogPNone float64 // sum of log P(no beyond-8 candidate picked) over the rounds in which none was picked
 )
 
 var lostReports, missingOffers atomic.Int64 // only shorten watchdogs once enough witnesses exist
@@ -1120,6 +1130,59 @@ func (e *epoch) roundWith(ri int, key0 []byte, cid id32, cidClass string, rng *r
 		}
 		if n.certainlyOutside() {
 			nOutsideCov++
+		}
+	}
+	// "up to 4 chosen at random among the other covered ones": over many rounds the random part must reach
+	// covered candidates beyond the 8 closest. beyond = covered candidates with at least 8 covered candidates
+	// strictly closer (by log-distance); pNone = probability, under a uniform choice of 4 among the others,
+	// that a round picks none of them (an upper bound: nodes tied at the 32-nearest boundary only add to it).
+	{
+		var cand []*tnode
+		for i := range T {
+			n := &T[i]
+			if n.Cov == covYes && (src == nil || n.ID != *src) && n.certainlyInside() {
+				cand = append(cand, n)
+			}
+		}
+		closerCov := func(ld int) int {
+			k := 0
+			for _, x := range cand {
+				if x.LD < ld {
+					k++
+				}
+			}
+			return k
+		}
+		beyond := 0
+		for _, x := range cand {
+			if closerCov(x.LD) >= 8 {
+				beyond++
+			}
+		}
+		others := len(cand) - 4
+		if beyond >= 1 && others >= 5 {
+			pNone := 1.0
+			for k := 0; k < 4; k++ {
+				pNone *= float64(max(others-beyond-k, 0)) / float64(others-k)
+			}
+			picked := false
+			for _, y := range R {
+				for i := range T {
+					if T[i].ID == y && T[i].Cov == covYes && closerCov(T[i].LD) >= 8 {
+						picked = true
+					}
+				}
+			}
+			spreadMu.Lock()
+			spreadRounds++
+			if picked {
+				spreadPicked++
+			} else if pNone > 0 {
+				spreadLogPNone += math.Log(pNone)
+			} else {
+				spreadLogPNone += math.Log(1e-300)
+			}
+			spreadMu.Unlock()
 		}
 	}
 	c := e.r.Count
